@@ -121,13 +121,13 @@ def graph_prop(pid, technique, level_text, explanation, not_covered, extra=None)
         trusted_base=GRAPH_TRUSTED,
         level_note='Trusted: Verus/Z3; the container contracts in shim/ (emap, micromap, microstack: specified, not '
                    'verified, Kani-audited within small bounds); Hex opaque (view + empty/clone facts). Not covered: '
-                   'merge/slice/save+load/script callers, kids() (one-line wrapper returning impl Iterator).',
+                   'what merge()/join() do to the left graph, save+load, Script (slice() is C13, the acceptance decision of merge() C12, the exporters C18).',
         design_ref='DESIGN.md §3-§4',
         assumptions=['calls are within the limits and documented preconditions of the property quantifier (ids below the '
                      'capacity, bind endpoints present and distinct, at most N labels, at most 16 members, a free group '
                      'slot when two ungrouped vertices are bound): these are the `requires` of the contracts',
-                     'every graph state reached through empty()/add/bind/put/data/next_id/clone; merge()/join()/slice()/'
-                     'load() are outside the verified set'],
+                     'every graph state reached through empty()/add/bind/put/data/next_id/clone (and slice(), whose result is built by '
+                     'add/bind); states produced by merge()/join()/load() are outside the verified set'],
     )
     if pid in ('C01', 'C02', 'C03'):
         d['parts'] = [parts.kani_group('kani-types-structural-eq', TYPES_EQ if pid == 'C03' else TYPES_EQ[1:2],
@@ -151,7 +151,8 @@ PROPS = {
         'wf is established by empty() and preserved by every operation; present-set can only shrink in the collecting arm of '
         'data_step; lemmas: only a first read of a grouped vertex removes, it removes exactly the reader\'s group, none of the '
         'removed holds an unread datum, ungrouped vertices are never removed, groups grow only by bind.',
-        ['slice, merge, save/load clauses (those functions are outside both verifiers)', 'kids() is a one-line wrapper taken on trust']),
+        ['slice() cannot remove anything (it borrows the graph immutably: enforced by the type checker on the extracted text, C13)',
+         'merge(): join() removes a left vertex when the right graph is not a tree (by design of join(); documented as unpredictable); save/load are outside both verifiers']),
     'C02': graph_prop(
         'C02',
         'contract-based deductive verification (Verus): counter invariant stores[b] == #unread members, functional step '
@@ -163,11 +164,11 @@ PROPS = {
         ['merge()/join() callers']),
     'C03': graph_prop(
         'C03',
-        'contract-based deductive verification (Verus): edge upsert / lookup / data-bytes postconditions with complete frames',
+        'contract-based deductive verification (Verus): edge upsert / lookup / data-bytes postconditions with complete frames; kids() verified (its impl-Iterator result yields the edge list)',
         'Unbounded proof: bind = upsert at the old position or append, kid = lookup of the first matching label, data returns the '
         'bytes of the last put in both arms, every other slot\'s edges and data are framed, including across collections.',
         'kid-lookup, data-result, *-step frames; lemmas L03 (kid after bind for every vertex/label, frame of edges/data).',
-        ['kids() (one-line wrapper over micromap iter, trusted)', 'Hex byte strings are opaque here; both sides of the 8-byte '
+        ['Hex byte strings are opaque here; both sides of the 8-byte '
          'boundary are covered in U_hex (C15)']),
     'C04': graph_prop(
         'C04',
